@@ -177,22 +177,39 @@ def r10_1(ctx):
 @rule("R10.2", "C10", "one boolness predicate: every NON_ZERO site and the bool->int conversion decide by the BOOL flag of the operand's type; node classes that emit bools declare BOOL", min_instances=8)
 def r10_2(ctx):
     idx = get_index(ctx.env)
-    sites = [("Ternary.il_exec", 1), ("Branch.il_write", 1), ("ForLoop.il_write", 1), ("BooleanOp.il_exec", 2)]
-    for q, cnt in sites:
-        fi = idx.func(q)
-        tests = []
-        for n in ast.walk(fi.node):
-            t = None
-            if isinstance(n, (ast.If, ast.IfExp)):
-                t = n.test
-            if t is not None:
-                tests.append(U(t))
-        good = [t for t in tests if t.endswith(".value_type.group & VTGroup.BOOL")]
-        nz = U(fi.node).count("NON_ZERO(")
-        ctx.check(f"{q}: NON_ZERO decided by the BOOL flag", len(good) == cnt and nz == cnt and len([t for t in tests if "isinstance" in t]) == 0, f"{cnt} x `<operand>.value_type.group & VTGroup.BOOL`", str(tests), fn_where(idx, fi))
-    fi = idx.func("RZILTransformer.init_a_cast")
-    tests = [U(n.test) for n in ast.walk(fi.node) if isinstance(n, ast.If)]
-    ctx.check("init_a_cast: bool->int conversion decided by the BOOL flag", any(t == "pure.value_type.group & VTGroup.BOOL and (not target_type.group & VTGroup.BOOL)" for t in tests), "pure.value_type.group & VTGroup.BOOL and not target_type.group & VTGroup.BOOL", str(tests)[:200], fn_where(idx, fi))
+    # valuation of every site that has to turn a bitvector condition into a bool: the operand's BOOL flag (and nothing else:
+    # not its class, not other flags) decides between the raw read and NON_ZERO(read)
+    bool_flags = [("PURE", "BOOL"), ("PURE", "BOOL", "CONST"), ("PURE", "BOOL", "HYBRID_LVAR")]
+    bv_flags = [("PURE",), ("PURE", "CONST"), ("PURE", "HYBRID_LVAR")]
+    classes = ("Pure", "CompareOp", "LocalVar", "Number", "Register")
+    sites = [
+        ("Ternary", "il_exec", lambda c: {"ops": [c, mk_pure("b", mk_vt("tb", True, 32)), mk_pure("d", mk_vt("td", True, 32))]}, 1),
+        ("Branch", "il_write", lambda c: {"cond": c, "then": mk_pure("t", cls="Effect"), "otherwise": mk_pure("e", cls="Effect")}, 1),
+        ("ForLoop", "il_write", lambda c: {"control": c, "compound": mk_pure("body", cls="Effect")}, 1),
+    ]
+    for cls, method, mk, _ in sites:
+        for flags, is_bool in [(f, True) for f in bool_flags] + [(f, False) for f in bv_flags]:
+            for ocls in classes:
+                fi, outs = run_il_exec(idx, cls, lambda: mk(mk_pure("c", mk_vt("tc", False, 1 if is_bool else 32, flags), cls=ocls)), method=method)
+                obs = sorted({normalise(outcome_text(o)) for o in outs})
+                wrapped = [("NON_ZERO(<c.il_read()>)" in o) for o in obs]
+                raw = [("<c.il_read()>" in o and "NON_ZERO(<c.il_read()>)" not in o) for o in obs]
+                ok = bool(obs) and (all(raw) if is_bool else all(wrapped))
+                ctx.check(f"{cls}.{method}: condition of class {ocls} with flags {'|'.join(flags)}", ok, "raw read" if is_bool else "NON_ZERO(read)", " | ".join(obs)[:100], fn_where(idx, fi), nontrivial=(ocls == "Pure"))
+    # BooleanOp: each operand on its own
+    for fa, fb_ in ((("PURE", "BOOL"), ("PURE",)), (("PURE",), ("PURE", "BOOL")), (("PURE",), ("PURE",)), (("PURE", "BOOL"), ("PURE", "BOOL"))):
+        bt = members_by_value(idx, "BooleanOpType")
+        for opname in ("&&", "||"):
+            fi, outs = run_il_exec(idx, "BooleanOp", lambda: {"op_type": bt[opname], "ops": [mk_pure("a", mk_vt("ta", False, 32, fa)), mk_pure("b", mk_vt("tb", False, 32, fb_))]})
+            obs = sorted({normalise(outcome_text(o)) for o in outs})
+            def part(x, flags):
+                return f"<{x}.il_read()>" if "BOOL" in flags else f"NON_ZERO(<{x}.il_read()>)"
+            ok = bool(obs) and all(part("a", fa) in o and part("b", fb_) in o and (("BOOL" in fa) or f"NON_ZERO(<a.il_read()>)" in o) for o in obs)
+            ok = ok and all((("BOOL" not in fa) or "NON_ZERO(<a.il_read()>)" not in o) and (("BOOL" not in fb_) or "NON_ZERO(<b.il_read()>)" not in o) for o in obs)
+            ctx.check(f"BooleanOp.il_exec[{opname}; a {'bool' if 'BOOL' in fa else 'bv'}, b {'bool' if 'BOOL' in fb_ else 'bv'}]", ok, f"{part('a', fa)} {opname} {part('b', fb_)}", " | ".join(obs)[:120], fn_where(idx, fi))
+    from .c03 import r03_2
+
+    r03_2(ctx)  # init_a_cast: a bool source is converted by ITE(src, 1, 0), decided by the BOOL flags of source and target
     # classes whose template yields a bool declare BOOL, all others do not create BOOL types
     for cls, exp in (("CompareOp", True), ("BooleanOp", True), ("Bool", True), ("ArithmeticOp", False), ("BitOp", False), ("MemLoad", False), ("Sizeof", False)):
         fi = idx.func(f"{cls}.__init__")
